@@ -1107,3 +1107,319 @@ Proof.
   - lia.
   - rewrite app_length. lia.
 Qed.
+
+(* ====================================================================== *)
+(* 6. Typed extended events                                                *)
+(* ====================================================================== *)
+
+Definition typed_bt (bt : btype) : bool :=
+  match bt with BAny | BZero | BBool => false | _ => true end.
+
+Lemma num_marker_elem t : is_num_marker t = true -> is_elem_marker t = true.
+Proof.
+  intro H. apply num_marker_cases in H.
+  destruct H as [->|[->|[->|[->|[->| ->]]]]]; reflexivity.
+Qed.
+
+Lemma typed_marker_elem bt es : typed_bt bt = true -> is_elem_marker (typed_marker bt es) = true.
+Proof.
+  intro H. destruct bt; try discriminate H; try reflexivity;
+    cbn [typed_marker]; apply num_marker_elem; apply (proj1 (uint_min_type_props es)).
+Qed.
+
+(* the value of one element of a typed container after the trip *)
+Definition ximg (bt : btype) (es : list scalar) (s : scalar) : cvalue :=
+  if is_uint_bt bt && needs_h es then scalar_h s else cv (scalar_value s).
+
+Lemma ed_u8 z : in_u 8 z = true ->
+  pdec mU (uint8_b z false) (CNum (CInt z)) /\ (1 <= length (uint8_b z false))%nat.
+Proof. intro H. split; [exact (proj1 (uint8_dec z H)) | cbn; lia]. Qed.
+Lemma ed_i8 z : in_s 8 z = true ->
+  pdec mi (int8_b z false) (CNum (CInt z)) /\ (1 <= length (int8_b z false))%nat.
+Proof. intro H. split; [exact (proj1 (int8_dec z H)) | cbn; lia]. Qed.
+Lemma ed_i16 z : in_s 16 z = true ->
+  pdec mI (int16_b z false) (CNum (CInt z)) /\ (1 <= length (int16_b z false))%nat.
+Proof.
+  intro H. split; [exact (proj1 (int16_dec z H))|].
+  change (int16_b z false) with (be_enc 2 (wrapu 16 z)). rewrite be_enc_length. lia.
+Qed.
+Lemma ed_i32 z : in_s 32 z = true ->
+  pdec ml (int32_b z false) (CNum (CInt z)) /\ (1 <= length (int32_b z false))%nat.
+Proof.
+  intro H. split; [exact (proj1 (int32_dec z H))|].
+  change (int32_b z false) with (be_enc 4 (wrapu 32 z)). rewrite be_enc_length. lia.
+Qed.
+Lemma ed_i64 z : in_s 64 z = true ->
+  pdec mL (int64_b z false) (CNum (CInt z)) /\ (1 <= length (int64_b z false))%nat.
+Proof.
+  intro H. split; [exact (proj1 (int64_dec z H))|].
+  change (int64_b z false) with (be_enc 8 (wrapu 64 z)). rewrite be_enc_length. lia.
+Qed.
+Lemma ed_f32 z : in_u 32 z = true ->
+  pdec md (float32_b z false) (CNum (CF32 z)) /\ (1 <= length (float32_b z false))%nat.
+Proof.
+  intro H. split; [exact (f32_dec z H)|].
+  change (float32_b z false) with (be_enc 4 z). rewrite be_enc_length. lia.
+Qed.
+Lemma ed_f64 z : in_u 64 z = true ->
+  pdec mD (float64_b z false) (CNum (CF64 z)) /\ (1 <= length (float64_b z false))%nat.
+Proof.
+  intro H. split; [exact (f64_dec z H)|].
+  change (float64_b z false) with (be_enc 8 z). rewrite be_enc_length. lia.
+Qed.
+Lemma ed_str b : (zlen b <? int_lim) = true ->
+  pdec mS (string_b b false) (CStr b) /\ (1 <= length (string_b b false))%nat.
+Proof.
+  intro H. split.
+  - exact (str_dec mS b (or_introl eq_refl) ltac:(lia)).
+  - rewrite string_b_false, app_length.
+    assert (Hb : 0 <= zlen b < int_lim) by (pose proof (zlen_nonneg b); lia).
+    pose proof (len_b_nonempty (zlen b) Hb). lia.
+Qed.
+Lemma ed_uint es s : In s es -> in_u 64 (snum s) = true ->
+  pdec (uint_min_type es) (uint64_b (snum s) (uint_min_type es) false)
+       (if needs_h es then scalar_h s else CNum (CInt (snum s))) /\
+  (1 <= length (uint64_b (snum s) (uint_min_type es) false))%nat.
+Proof.
+  intros Hin Hu. destruct (uint_min_type_props es) as (N & B & H).
+  destruct (uint64_b_dec (snum s) (uint_min_type es) Hu N) as (p & E & P & Len).
+  { pose proof (B s Hin). pose proof (uint_type_fits (snum s)).
+    unfold in_u in Hu. change (2 ^ 64) with 18446744073709551616 in Hu. lia. }
+  rewrite (E false). cbn [optm app]. rewrite <- H. split; [exact P | exact Len].
+Qed.
+
+Lemma elem_dec bt es s : typed_bt bt = true -> In s es -> xelem_ok bt s = true ->
+  scalar_small s = true ->
+  pdec (typed_marker bt es) (elem_b bt (typed_marker bt es) s) (ximg bt es s) /\
+  (1 <= length (elem_b bt (typed_marker bt es) s))%nat.
+Proof.
+  intros Hbt Hin Hx Hsm. unfold xelem_ok in Hx. unfold ximg.
+  destruct bt; try discriminate Hbt; cbv iota in Hx; apply andb_true_iff in Hx as [Hm Hok];
+    destruct s as [| |b|k z]; try discriminate Hm; try (destruct k; try discriminate Hm);
+    cbn [scalar_ok nkind_ok] in Hok; cbn [scalar_small] in Hsm;
+    cbn [typed_marker elem_b is_uint_bt andb sstr scalar_value cv canon_num];
+    first
+    [ apply ed_u8; exact Hok
+    | apply ed_str; exact Hsm
+    | apply ed_i8; exact Hok
+    | apply ed_i16; exact Hok
+    | apply ed_i32; exact Hok
+    | apply ed_i64; exact Hok
+    | apply ed_f32; exact Hok
+    | apply ed_f64; exact Hok
+    | apply (ed_uint es _ Hin); cbn [snum];
+      first [ exact Hok | apply (in_u_64 16); [lia | exact Hok] | apply (in_u_64 32); [lia | exact Hok] ] ].
+Qed.
+
+Lemma zlen_le0_nil {A} (l : list A) : zlen l <= 0 -> l = [].
+Proof. intro H. apply zlen_0_nil. pose proof (zlen_nonneg l). lia. Qed.
+
+Lemma bool_good s : xelem_ok BBool s = true -> gooddec (bool_b s) (cv (scalar_value s)).
+Proof.
+  intro Hx. unfold xelem_ok in Hx. apply andb_true_iff in Hx as [Hm _].
+  destruct s as [|b|b|k z]; try discriminate Hm.
+  destruct b.
+  - apply (gooddec_of_pdec mT []); [reflexivity|]. intros f rest. apply pl_T.
+  - apply (gooddec_of_pdec mF []); [reflexivity|]. intros f rest. apply pl_F.
+Qed.
+
+Lemma bool_bt_eq bt : is_bool_bt bt = true -> bt = BBool.
+Proof. destruct bt; try discriminate; reflexivity. Qed.
+
+Lemma typed_of_xelem bt s : xelem_ok bt s = true -> is_bool_bt bt = false -> typed_bt bt = true.
+Proof. destruct bt; try reflexivity; discriminate. Qed.
+
+Lemma xarr_good bt es :
+  forallb (xelem_ok bt) es = true -> zlen es < int_lim -> forallb scalar_small es = true ->
+  gooddec (xarr_b bt es) (ubj_img (TXArr bt es)).
+Proof.
+  intros Hx Hn Hsm. rewrite forallb_forall in Hx, Hsm. unfold xarr_b. cbn [ubj_img].
+  destruct (is_bool_bt bt) eqn:Eb.
+  - apply bool_bt_eq in Eb. subst bt. cbn [is_uint_bt andb].
+    assert (G : Forall (fun s => gooddec (bool_b s) (cv (scalar_value s))) es).
+    { apply Forall_forall. intros s Hs. apply bool_good. apply Hx; exact Hs. }
+    unfold count_b, close_b. destruct (zlen es <=? 0) eqn:E.
+    + cbn [app]. apply shell_arr_plain. exact G.
+    + rewrite app_nil_r. cbn [app]. apply shell_arr_counted; [exact G | exact Hn].
+  - destruct (zlen es <=? 0) eqn:E.
+    + assert (es = []) by (apply zlen_le0_nil; lia). subst es.
+      destruct (is_uint_bt bt && needs_h []);
+        exact (shell_arr_plain bool_b (fun _ => CNil) [] (Forall_nil _)).
+    + assert (Ht : typed_bt bt = true).
+      { destruct es as [|s0 es']; [discriminate E|].
+        apply (typed_of_xelem bt s0); [apply Hx; left; reflexivity | exact Eb]. }
+      replace (if is_uint_bt bt && needs_h es then CArr (map scalar_h es)
+               else CArr (map (fun s => cv (scalar_value s)) es))
+        with (CArr (map (ximg bt es) es))
+        by (unfold ximg; destruct (is_uint_bt bt && needs_h es); reflexivity).
+      apply shell_arr_typed; [apply typed_marker_elem; exact Ht | | exact Hn].
+      apply Forall_forall. intros s Hs.
+      apply elem_dec; [exact Ht | exact Hs | apply Hx; exact Hs | apply Hsm; exact Hs].
+Qed.
+
+Lemma xobj_good bt ms :
+  forallb (fun m => all_bytes (fst m) && xelem_ok bt (snd m)) ms = true -> zlen ms < int_lim ->
+  forallb (fun m => (zlen (fst m) <? int_lim) && scalar_small (snd m)) ms = true ->
+  gooddec (xobj_b bt ms) (ubj_img (TXObj bt ms)).
+Proof.
+  intros Hx Hn Hsm. rewrite forallb_forall in Hx, Hsm. unfold xobj_b. cbn [ubj_img].
+  assert (Hx' : forall m, In m ms -> xelem_ok bt (snd m) = true).
+  { intros m Hm. specialize (Hx m Hm). apply andb_true_iff in Hx as [_ Hx]. exact Hx. }
+  assert (Hk : forall m, In m ms -> zlen (fst m) < int_lim).
+  { intros m Hm. specialize (Hsm m Hm). apply andb_true_iff in Hsm as [Hk _]. apply Z.ltb_lt in Hk. exact Hk. }
+  assert (Hs' : forall m, In m ms -> scalar_small (snd m) = true).
+  { intros m Hm. specialize (Hsm m Hm). apply andb_true_iff in Hsm as [_ Hs]. exact Hs. }
+  destruct (zlen ms <=? 0) eqn:E.
+  - assert (ms = []) by (apply zlen_le0_nil; lia). subst ms.
+    destruct (is_uint_bt bt && needs_h (map snd []));
+      exact (shell_obj_plain (fun m : bytes * scalar => fst m) (fun m => bool_b (snd m))
+               (fun _ => CNil) [] (Forall_nil _)).
+  - destruct (is_bool_bt bt) eqn:Eb.
+    + apply bool_bt_eq in Eb. subst bt. cbn [is_uint_bt andb].
+      unfold count_b, close_b. rewrite E, app_nil_r. cbn [app].
+      apply (shell_obj_counted (fun m : bytes * scalar => fst m) (fun m => bool_b (snd m))
+               (fun m => cv (scalar_value (snd m))) ms); [|exact Hn].
+      apply Forall_forall. intros m Hm. split; [apply Hk; exact Hm|].
+      apply bool_good. apply Hx'; exact Hm.
+    + assert (Ht : typed_bt bt = true).
+      { destruct ms as [|m0 ms']; [discriminate E|].
+        apply (typed_of_xelem bt (snd m0)); [apply Hx'; left; reflexivity | exact Eb]. }
+      replace (if is_uint_bt bt && needs_h (map snd ms)
+               then CObj (map (fun m => (fst m, scalar_h (snd m))) ms)
+               else CObj (map (fun m => (fst m, cv (scalar_value (snd m)))) ms))
+        with (CObj (map (fun m => (fst m, ximg bt (map snd ms) (snd m))) ms))
+        by (unfold ximg; destruct (is_uint_bt bt && needs_h (map snd ms)); reflexivity).
+      apply (shell_obj_typed (typed_marker bt (map snd ms)) (fun m : bytes * scalar => fst m)
+               (fun m => elem_b bt (typed_marker bt (map snd ms)) (snd m))
+               (fun m => ximg bt (map snd ms) (snd m)) ms);
+        [apply typed_marker_elem; exact Ht | | exact Hn].
+      apply Forall_forall. intros m Hm. split; [apply Hk; exact Hm|].
+      apply elem_dec; [exact Ht | apply in_map; exact Hm | apply Hx'; exact Hm | apply Hs'; exact Hm].
+Qed.
+
+(* ====================================================================== *)
+(* 7. Trees                                                                *)
+(* ====================================================================== *)
+
+(* every element count, string length and key length fits Go's int *)
+Fixpoint tree_small (t : tree) : bool :=
+  match t with
+  | TVal s _ => scalar_small s
+  | TArr _ _ es =>
+      (zlen es <? int_lim) &&
+      (fix go (l : list tree) := match l with [] => true | e :: r => tree_small e && go r end) es
+  | TObj _ _ ms =>
+      (zlen ms <? int_lim) &&
+      (fix go (l : list (bytes * bool * tree)) :=
+         match l with
+         | [] => true
+         | (k, _, e) :: r => (zlen k <? int_lim) && tree_small e && go r
+         end) ms
+  | TXArr _ es => (zlen es <? int_lim) && forallb scalar_small es
+  | TXObj _ ms =>
+      (zlen ms <? int_lim) &&
+      forallb (fun m => (zlen (fst m) <? int_lim) && scalar_small (snd m)) ms
+  end.
+
+Lemma small_arr len bt es :
+  tree_small (TArr len bt es) = (zlen es <? int_lim) && forallb tree_small es.
+Proof. reflexivity. Qed.
+
+Lemma small_obj len bt ms :
+  tree_small (TObj len bt ms) =
+  (zlen ms <? int_lim) &&
+  forallb (fun m => (zlen (fst (fst m)) <? int_lim) && tree_small (snd m)) ms.
+Proof.
+  cbn [tree_small]. f_equal.
+  induction ms as [|[[k r] e] rest IH]; cbn [forallb fst snd]; [reflexivity|].
+  rewrite <- IH. reflexivity.
+Qed.
+
+Lemma len_ok_pos {A} len (l : list A) : len_ok len l = true -> (len <=? 0) = false -> len = zlen l.
+Proof. unfold len_ok. intros H1 H2. lia. Qed.
+
+Lemma dec_tree t : wf_tree t = true -> tree_small t = true -> gooddec (tbytes t) (ubj_img t).
+Proof.
+  induction t as [s r|len bt es IH|len bt ms IH|bt es|bt ms] using tree_ind'; intros Hwf Hsm.
+  - cbn [wf_tree tree_small tbytes ubj_img] in *. apply gooddec_scalar; assumption.
+  - rewrite wf_arr in Hwf. rewrite small_arr in Hsm.
+    apply andb_true_iff in Hwf as [Hwf Hw]. apply andb_true_iff in Hwf as [Hlen _].
+    apply andb_true_iff in Hsm as [Hn Hs].
+    rewrite forallb_forall in Hw, Hs. rewrite Forall_forall in IH.
+    assert (G : Forall (fun t => gooddec (tbytes t) (ubj_img t)) es).
+    { apply Forall_forall. intros t Ht. apply IH; [exact Ht | apply Hw; exact Ht | apply Hs; exact Ht]. }
+    cbn [tbytes ubj_img]. unfold count_b, close_b. destruct (len <=? 0) eqn:E.
+    + cbn [app]. apply shell_arr_plain. exact G.
+    + apply len_ok_pos in Hlen; [|exact E]. subst len.
+      rewrite app_nil_r. cbn [app]. apply shell_arr_counted; [exact G | lia].
+  - rewrite wf_obj in Hwf. rewrite small_obj in Hsm.
+    apply andb_true_iff in Hwf as [Hwf Hw]. apply andb_true_iff in Hwf as [Hlen _].
+    apply andb_true_iff in Hsm as [Hn Hs].
+    rewrite forallb_forall in Hw, Hs. rewrite Forall_forall in IH.
+    assert (G : Forall (fun m : bytes * bool * tree =>
+                          zlen (fst (fst m)) < int_lim /\ gooddec (tbytes (snd m)) (ubj_img (snd m))) ms).
+    { apply Forall_forall. intros m Hm.
+      specialize (Hw m Hm). specialize (Hs m Hm).
+      apply andb_true_iff in Hw as [_ Hw]. apply andb_true_iff in Hs as [Hk Hs].
+      split; [apply Z.ltb_lt in Hk; exact Hk|]. apply IH; assumption. }
+    cbn [tbytes ubj_img]. unfold count_b, close_b. destruct (len <=? 0) eqn:E.
+    + cbn [app].
+      apply (shell_obj_plain (fun m : bytes * bool * tree => fst (fst m)) (fun m => tbytes (snd m))
+               (fun m => ubj_img (snd m)) ms G).
+    + apply len_ok_pos in Hlen; [|exact E]. subst len.
+      rewrite app_nil_r. cbn [app].
+      apply (shell_obj_counted (fun m : bytes * bool * tree => fst (fst m)) (fun m => tbytes (snd m))
+               (fun m => ubj_img (snd m)) ms G). lia.
+  - cbn [wf_tree tree_small tbytes] in *. apply andb_true_iff in Hsm as [Hn Hs].
+    apply xarr_good; [exact Hwf | lia | exact Hs].
+  - cbn [wf_tree tree_small tbytes] in *. apply andb_true_iff in Hsm as [Hn Hs].
+    apply andb_true_iff in Hwf as [_ Hwf].
+    apply xobj_good; [exact Hwf | lia | exact Hs].
+Qed.
+
+(* ====================================================================== *)
+(* 8. The theorems                                                         *)
+(* ====================================================================== *)
+
+(* On the events of a well-formed tree the encoder never fails (unless the
+   writer does), leaves the length stack where it was, and writes a document
+   that the reference decoder reads back as [ubj_img t], whatever follows. *)
+Theorem ubj_enc_tree : forall t, wf_tree t = true -> tree_small t = true ->
+  forall e i, w_fail (ue_w e) = None ->
+  exists e' bs, ubj_run e (flatten t) i = (e', None) /\
+     ue_len e' = ue_len e /\ w_fail (ue_w e') = None /\
+     w_bytes (ue_w e') = w_bytes (ue_w e) ++ bs /\
+     (exists m bs', bs = m :: bs' /\ is_value_marker m = true /\
+        forall rest fuel, (length (bs ++ rest) < fuel)%nat ->
+          ubj_payload fuel m (bs' ++ rest) = RValue (ubj_img t) rest).
+Proof.
+  intros t Hwf Hsm e i Hf.
+  destruct (ubj_run_tbytes t e i Hf) as (e' & E & L & F & B).
+  exists e', (tbytes t). repeat (split; [assumption|]).
+  exact (dec_tree t Hwf Hsm).
+Qed.
+Print Assumptions ubj_enc_tree.
+
+Lemma ubj_value_S f m r : ubj_value (S f) (m :: r) =
+  if m =? mN then ubj_value f r
+  else if is_value_marker m then ubj_payload (S (length (m :: r))) m r else RMalformed.
+Proof. reflexivity. Qed.
+
+(* C07 for UBJSON: encode, then decode with the reference decoder *)
+Theorem C07_ubj : forall t, wf_tree t = true -> tree_small t = true ->
+  exists bs, ubj_encode (flatten t) = Some bs /\ ubj_decode bs = RValue (ubj_img t) [].
+Proof.
+  intros t Hwf Hsm. exists (tbytes t). split; [apply ubj_encode_tbytes|].
+  destruct (dec_tree t Hwf Hsm) as (m & p & E & M & D). rewrite E in *.
+  unfold ubj_decode. rewrite ubj_value_S.
+  destruct (value_marker_not m M) as (N & _). rewrite N, M.
+  specialize (D [] (S (length (m :: p)))). rewrite !app_nil_r in D. apply D. lia.
+Qed.
+Print Assumptions C07_ubj.
+
+(* C17 for the UBJSON encoder: after a complete value it is idle again *)
+Theorem C17_ubj_enc_idle : forall t e i, wf_tree t = true -> tree_small t = true ->
+  w_fail (ue_w e) = None ->
+  exists e', ubj_run e (flatten t) i = (e', None) /\ ue_len e' = ue_len e.
+Proof. intros t e i _ _ H. apply C17_ubj_enc_idle_any; exact H. Qed.
+Print Assumptions C17_ubj_enc_idle.
